@@ -51,6 +51,7 @@ from .validation import (
     builds_machine_inline,
     check_representable,
     format_refusal,
+    verify_discovery_binds,
     verify_generated,
 )
 from .utils import camel_to_snake, normalize_bool
@@ -862,6 +863,7 @@ def run_generation_workflow(
         runner_code=runner_code,
         template=template,
         strict=not getattr(args, "no_verify", False),
+        discovers_logic=bool(settings["loader"]) and not hierarchy_flag,
     )
 
     logger.info("✅ Code generation complete.")
@@ -933,6 +935,7 @@ def _verify_or_refuse(
     template: str,
     strict: bool,
     runner_code: Optional[str] = None,
+    discovers_logic: bool = False,
 ) -> None:
     """Prove the generated code rebuilds the source machine, or refuse.
 
@@ -967,6 +970,22 @@ def _verify_or_refuse(
             configs[0], logic_code, template=template, strict=structural
         )
     )
+
+    # 🔍 The `*-json` templates bind logic by auto-discovery at run time.
+    #    Discovery matches callables by NAME, so an action, guard or service
+    #    whose name is not a Python identifier ("notify.user") gets a stub
+    #    that discovery can never bind: the generated runner then dies with
+    #    ImplementationMissingError. Prove the binding before writing.
+    if (
+        strict
+        and discovers_logic
+        and not problems
+        and not builds_machine_inline(template)
+        and len(configs) == 1
+    ):
+        problems.extend(
+            verify_discovery_binds(configs[0], logic_code, template=template)
+        )
 
     # 🔍 The runner is written too, so it is syntax-checked too. Only the
     #    logic module used to be parsed, and a runner that was not valid
